@@ -7,7 +7,7 @@ Calls are resolved through the spec's maps (regex on a textual key -> C stub / t
 """
 import re
 
-from astload import ExtractionError, walk as astload_walk
+from astload import ExtractionError, node_text, walk as astload_walk
 
 
 class Unsupported(ExtractionError):
